@@ -18,8 +18,9 @@ func H08_retained() {
 	K := vrtBound("N08ops", 3)
 	b := vrtBroker("mockSuccess")
 	e, _ := b.connect(vrtConnectPkt([]byte("e"), true))
-	ans := vrtExchange(e, &specPkt{Typ: specSUBSCRIBE, ID: 1, Topics: [][]byte{[]byte("#")}, QoS: []byte{2}})
-	vrtAssert("C08.harness_suback", vrtBytesEq(ans, []byte{0x90, 3, 0, 1, 2}))
+	qe := byte(1) // the existing subscriber's granted QoS (it must not leak into the store)
+	ans := vrtExchange(e, &specPkt{Typ: specSUBSCRIBE, ID: 1, Topics: [][]byte{[]byte("#")}, QoS: []byte{qe}})
+	vrtAssert("C08.harness_suback", vrtBytesEq(ans, []byte{0x90, 3, 0, 1, qe}))
 	p, _ := b.connect(vrtConnectPkt([]byte("p"), true))
 	T := [2][]byte{vrtLevelName("T0", V, false), vrtLevelName("T1", V, false)}
 	same := vrtBytesEq(T[0], T[1])
@@ -32,7 +33,9 @@ func H08_retained() {
 		case k == 0:
 			isPublish = true
 		case vrtBound("N08fixed", 0) == 1:
-			isPublish = k < K-1
+			isPublish = k < K-1 // publish, ..., publish, subscribe
+		case vrtBound("N08fixed", 0) == 2:
+			isPublish = false // publish, subscribe, ..., subscribe
 		default:
 			isPublish = vrtChoice("op", 2) == 0
 		}
@@ -85,7 +88,7 @@ func H08_retained() {
 				okp := vrtAnd(vrtBytesEq(fw[0].Topic, T[t]), vrtBytesEq(fw[0].Payload, payload))
 				vrtAssert("C08.forward_content", okp)
 				vrtAssert("C08.forward_has_no_retain_flag", fw[0].Flags&1 == 0)
-				vrtAssert("C08.forward_qos", (fw[0].Flags>>1)&3 == q)
+				vrtAssert("C08.forward_qos", (fw[0].Flags>>1)&3 == specMinQos(q, qe))
 			}
 			continue
 		}
